@@ -111,9 +111,25 @@ def run(repo, rep, tier):
              lambda r_, p_: _c13.run(r_, p_, "quick"),
              ("position-arity", "position-unknown-none", "token-guard"),
              minimum=2)
+    # 'macroname' is the name the caller used: it is bound where a macro is
+    # used and nowhere else (a define-macro element rendered in place, or
+    # nested in a used macro, sees the caller's)
+    ve_ = repo.func(PROG + "visit_element")
+    binds = [n_ for n_ in ast.walk(ve_.node) if isinstance(n_, ast.Constant)
+             and n_.value == "macroname"]
+    rep.check(len(binds) == 1, "R09.3", ve_.qualname, "'macroname' is bound "
+              "at one place: the element that uses a macro",
+              construct="macroname-bound-once", where=L.where(ve_),
+              detail="lines %s" % [n_.lineno for n_ in binds])
     # data-metal-* is metal:* (C18 owns the conversion)
     from . import c18 as _c18
     L.borrow(repo, rep, "R09.3", "C18", _c18._keyed, ("convert-first",))
+    # a slot may stand anywhere in a template that is used as a whole: the
+    # only combinations that are rejected are those the messages name (C11
+    # owns the message / guard agreement)
+    from . import c11 as _c11
+    L.borrow(repo, rep, "R09.3", "C11", _c11.language_error_guards,
+             ("language-error-guard",), minimum=2)
     L.state_rule(repo, rep)
 
 
